@@ -33,9 +33,9 @@ A queueTargetAsync without `t.WaitForBuild(target.Label)`  -> red: C04_facts_ok 
      needed-target-not-built), witness: trace deps=0:;1:0;2:0;3:0;4:0;5:1,2,3,4 ... ev=S0,E0 rc=2; 23 model/impl disagreements
 C IsBuilt `s <= DependencyFailed`                            -> C04_facts_ok broken (btIsBuilt differs; checked with the extractor on the
      mutated file; the full ./check was killed by its 3000 s limit at load average 277 before reaching the verdict)
-H harmless: dep->declared, err->qerr, an added log.Debug line in queueTargetAsync -> facts regenerated identical, 9/9 obligations;
-     the run (1455 s at load >200) showed two environment-induced real-run failures (a 120 s timeout and a plz error) that
-     were not kept for inspection; since then environment-sensitive failures are confirmed by an isolated re-run before
-     they are reported (harness/cmd/c04 confirm()).
+H harmless: dep->declared, err->qerr, an added log.Debug line in queueTargetAsync -> green (exit 0): facts regenerated identical,
+     9/9 obligations, 55 cases, no oracle failure (892 s).  A first attempt at load average >200 had shown two
+     environment-induced real-run failures (a 120 s timeout, a plz error); since then environment-sensitive failures are
+     confirmed by an isolated re-run before they are reported (harness/cmd/c04 confirm()).
 See checks/C05.py for the failure-path mutations of the same functions.
 """
